@@ -1369,12 +1369,19 @@ def generate_loopy(result: Array | AbstractResultWithNamedArrays | dict[str, Arr
     # optimization: remove any ImplStored tags on outputs to avoid redundant
     # store-load operations (see https://github.com/inducer/pytato/issues/415)
     # (This must be done after all the calls have been inlined)
+    def _without_impl_stored(output: Array) -> Array:
+        if (isinstance(output, InputArgumentBase)
+                or not output.tags_of_type(ImplStored)):
+            return output
+        # An output is named by its key. If the array is also used by another
+        # output, the (still ImplStored) original is generated as well: the
+        # copy must not claim the original's Named/PrefixNamed name.
+        from pytato.tags import _BaseNameTag
+        return output.without_tags(
+            frozenset({ImplStored(), *output.tags_of_type(_BaseNameTag)}))
+
     outputs = DictOfNamedArrays(
-        {name: (output.without_tags(ImplStored(),
-                                    verify_existence=False)
-                if not isinstance(output,
-                                  InputArgumentBase)
-                else output)
+        {name: _without_impl_stored(output)
          for name, output in outputs._data.items()},
         tags=outputs.tags)
 
